@@ -187,6 +187,30 @@ func ruleCompose(mk func(thorough bool) []composeSpec, floor int) ruleFunc {
 		}
 		var jobs []*job
 		filter := os.Getenv("ORBCHECK_CASE")
+		assumed := map[string]bool{}
+		assume := func(a string) {
+			if !assumed[a] {
+				assumed[a] = true
+				c.R.Assume(a)
+			}
+		}
+		for _, sp := range specs {
+			if sp.terms {
+				assume("A-comp: computed floats are compared as rational functions of the unknowns over the reals; floating-point rounding is not modelled, and no quantity reaches the largest finite float")
+			}
+			if sp.generalPosition {
+				assume("A-comp: two different free inputs are different values (coincident points / coordinates are not covered)")
+			}
+			if sp.skipTruncated {
+				assume("A-comp: paths cut by the exploration bounds (endless re-clipping, ever deeper descent) are counted, not judged")
+			}
+			if sp.precise {
+				assume("A-comp: bytes.Buffer, bytes.Reader, io.ReadFull, encoding/binary, encoding/hex and math.Float64bits/frombits behave as their documentation says (byte-precise models)")
+			}
+			if len(sp.oracles) > 0 {
+				assume("A-comp: the uninterpreted callees are pure (their answer depends on their arguments only) and total")
+			}
+		}
 		for si, sp := range specs {
 			if p.funcByShortKey(sp.entry) == nil {
 				c.R.Unknown("A-comp", sp.entry, "", "composing function not found")
